@@ -377,12 +377,10 @@ func c14Views(c *Ctx, i int, doc string, path []interface{}, want *ref.Value, sp
 			} else if serr == nil {
 				a, b := gen.Dump(reflect.ValueOf(&sv).Elem()), gen.Dump(reflect.ValueOf(&jv).Elem())
 				if a != b {
-					if strings.Contains(span, "-0") && negZeroDump.Replace(a) == negZeroDump.Replace(b) {
-						c.Known("B24", i, "Node.Interface", "literal -0 decodes to +0", q(span))
-					} else {
-						x, y := diffAt(a, b)
-						bad("Node.Interface", "value differs from encoding/json on the span", x, y)
-					}
+					// (no waiver for the literal -0 here: finding B24 sits in the native number scanner of
+					// Unmarshal; the ast conversions go through strconv and keep the sign of zero)
+					x, y := diffAt(a, b)
+					bad("Node.Interface", "value differs from encoding/json on the span", x, y)
 				}
 			}
 			var jn interface{}
